@@ -114,6 +114,13 @@ class Exec(ExprMixin, CallMixin):
     def st_Expr(self, s):
         if isinstance(s.value, ast.Constant):
             return
+        if isinstance(s.value, ast.Yield) and s.value.value is None:
+            # the body of an @asynccontextmanager: at `yield` the with-block runs; it may suspend, and it may end with any exception,
+            # which is then raised here (contextlib throws it into the generator)
+            self.yield_point(s, "with-body")
+            if self.catchable("Exception") and self.ctx.choose(2, f"with-body-raises@{s.lineno}") == 1:
+                raise PyRaise(SExc("Exception", []))
+            return
         self.eval(s.value)
 
     def st_Break(self, s):
@@ -143,6 +150,13 @@ class Exec(ExprMixin, CallMixin):
             args = []
             if cls in self.ctx.locals and self.ctx.locals[cls].py and self.ctx.locals[cls].py[0] == "excinst":
                 raise PyRaise(SExc(self.ctx.locals[cls].py[1], self.ctx.locals[cls].py[2]))
+            if isinstance(e, ast.Attribute):
+                # `raise self.resolve_error`: a stored exception object of unknown class
+                ty = self._static_type_of(e)
+                if isinstance(ty, sorts.TOpt):
+                    ty = ty.inner
+                if isinstance(ty, sorts.TOpaque) and ty.name.split(":")[-1] == "Exception":
+                    raise PyRaise(SExc("Exception", []))
         cls = cls.split(".")[-1]
         raise PyRaise(SExc(cls, args))
 
@@ -544,6 +558,10 @@ class Exec(ExprMixin, CallMixin):
                 finally:
                     c.locals = saved_l
                 c.oblige(f"stable:{self.contract.qualname}:{nm}@{what}", t, kind="assert", line=getattr(node, "lineno", None))
+        if self.inline_depth == 0 and self.contract.ghost.get("cancellable") and self.catchable("CancelledError"):
+            # a task can be cancelled (by the command watchdog's asyncio.timeout, or at shutdown) at any suspension point
+            if self.ctx.choose(2, f"cancelled@{getattr(node, 'lineno', '?')}#{self.ctx.yield_count}") == 1:
+                raise PyRaise(SExc("CancelledError", []))
         if self.timeout_depth > 0 and self.catchable("TimeoutError"):
             if self.ctx.choose(2, f"timeout@{getattr(node, 'lineno', '?')}") == 1:
                 raise PyRaise(SExc("TimeoutError"))
